@@ -50,6 +50,8 @@ func ruleC08(c *Check) {
 	c.queuePairs("C08")
 	c.contextDeleters("C08")
 	c.queueDeleters("C08")
+	// "once block h+t has ended it is no longer pending": pending requests are deactivated by the expiry of their batch, which is queued on every path that issues them
+	c.newBatchRules("C08", map[string]bool{"issue-without-expiry": true})
 }
 
 func ruleC09(c *Check) {
